@@ -109,7 +109,7 @@ def o2(tier):
     sol = S.Solver()
     cases = 0
     for rel, fn in (('groups.rs', 'messages'), ('welcomes.rs', 'pending_welcomes')):
-        body = S.fn_body(S.source(rel), fn)
+        body = S.fn_body_deep(S.source(rel), fn)
         m = re.search(r'params!\[([^\]]*?limit[^\]]*?offset[^\]]*?)\]', body, re.S)
         if not m:
             raise S.SqlError(f'{fn}: LIMIT/OFFSET parameters not found')
@@ -276,7 +276,7 @@ def numbered(sql):
 def bound_exprs(rel, fn, sql):
     """the Rust expressions bound to the statement's placeholders (params![..] or a plain array after the SQL literal); None if not found"""
     from sqlsym import writes as W
-    body = S.fn_body(S.source(rel), fn)
+    body = S.fn_body_deep(S.source(rel), fn)
     try:
         return W.params_after(body, sql)
     except S.SqlError:
@@ -579,7 +579,7 @@ def o8(tier):
     dbsrc = S.source('db.rs')
     for rel, fn, decoder in SAVE_FNS:
         src = S.source(rel)
-        body = S.fn_body(src, fn)
+        body = S.fn_body_deep(src, fn)
         sig = re.search(r'\bfn ' + fn + r'\s*\(\s*&self\s*,\s*(\w+)\s*:\s*&?\s*([\w:]+)', src)
         if not sig:
             raise S.SqlError(f'{fn}: cannot read the signature')
